@@ -703,6 +703,22 @@ pub fn run(name: &str) -> Option<bool> {
             std::env::remove_var(var);
             !out.is_value()
         }
+        // C18: the same through a choice: `construct!([alpha, beta]).many()`, V=zz, `--alpha 1`
+        "invalid_variable_defeats_repeated_item_in_a_choice" => {
+            let var = "BPAF_VERIF_WITNESS_F47";
+            std::env::set_var(var, "zz");
+            let mut names = Names::long("alpha");
+            names.envs = vec![var.to_string()];
+            let a = Spec::Alt(vec![
+                arg(1, names, Ty::U32),
+                item(4, Names::long("beta"), Leaf::ReqFlag),
+            ]);
+            let o = OptSpec::plain(Spec::Seq(vec![Spec::wrap(W::Many { catch: false }, 3, a)]));
+            let p = build_options(&o);
+            let out = crate::outcome::run(&p, &bytes(&["--alpha", "1"]));
+            std::env::remove_var(var);
+            !out.is_value()
+        }
         // C18: `long("alpha").env(V).argument::<u32>().many()` with V=zz refused `--alpha 1`
         "invalid_variable_defeats_repeated_item_on_the_line" => {
             let var = "BPAF_VERIF_WITNESS_F33";
